@@ -67,6 +67,17 @@ func (w *Worker) callValue(s *State, f *Frame, fv Value, args []Value, dst int, 
 	if c == nil {
 		panic(crash{"call of nil func"})
 	}
+	if c.Fn == nil {
+		h, ok := nativeClosures[c.Native]
+		if !ok {
+			panic(unsupported{"native closure " + c.Native})
+		}
+		res := h(w, s, args)
+		if dst >= 0 {
+			f.env[dst] = res
+		}
+		return true
+	}
 	return w.callFunction(s, f, c.Fn, args, c.Bind, dst)
 }
 
